@@ -1,6 +1,12 @@
 import GoSQLXModel.Props.C03
 open GoSQLXModel
 #print axioms ExprParse.lem
+#print axioms ExprParse.lemL
+#print axioms ExprParse.lem_between
+#print axioms ExprParse.lem_like
+#print axioms ExprParse.lem_inlist
+#print axioms ExprParse.lem_isnull
+#print axioms ExprParse.lem_call
 #print axioms ExprParse.parse_render
 #print axioms ExprParse.render_low
 #print axioms ExprParse.render_high
